@@ -51,18 +51,35 @@ META = dict(
         "is neither empty nor complete (models / distance model), or set a "
         "cross-link number strictly between 0 and N1*N2."),
     floors={
-        "quick": {"model_cases": 150, "rewire_cases": 80, "geo_steps": 400,
-                  "geo_step_strict_eps": 60, "geo_bulk": 60,
-                  "cross_set": 100, "cross_rewire": 50, "dist_links": 20,
-                  "kernel_geo_steps": 300, "kernel_cross": 60,
-                  "inet_evals": 800, "runs_without_hard_kill": 1},
-        "thorough": {"model_cases": 2000, "rewire_cases": 1000,
-                     "geo_steps": 6000, "geo_step_strict_eps": 800,
-                     "geo_bulk": 800, "cross_set": 1200,
-                     "cross_rewire": 600, "dist_links": 250,
-                     "kernel_geo_steps": 4000, "kernel_cross": 800,
-                     "inet_evals": 10000, "runs_without_hard_kill": 1}},
-    exhaustive_subspaces={"quick": [], "thorough": []},
+        "quick": {"model_cases": 600, "rewire_cases": 600,
+                  "rewire_changed": 250, "geo_steps": 2500,
+                  "geo_steps:3": 300, "geo_step_strict_eps": 700,
+                  "geo_bulk": 80, "geo_bulk_exact_classes": 25,
+                  "cross_set": 400,
+                  "cross_set:RandomlySetCrossLinks_sparse": 120,
+                  "cross_rewire": 250, "cross_rewire_changed": 130,
+                  "dist_links": 120, "kernel_geo_steps": 1300,
+                  "kernel_cross": 300, "inet_evals": 4500,
+                  "runs_without_hard_kill": 1},
+        "thorough": {"model_cases": 30000, "rewire_cases": 20000,
+                     "rewire_changed": 9000, "geo_steps": 100000,
+                     "geo_steps:3": 15000, "geo_step_strict_eps": 40000,
+                     "geo_bulk": 4000, "geo_bulk_exact_classes": 1300,
+                     "cross_set": 20000,
+                     "cross_set:RandomlySetCrossLinks_sparse": 6000,
+                     "cross_rewire": 8000, "cross_rewire_changed": 4500,
+                     "dist_links": 6000, "kernel_geo_steps": 100000,
+                     "kernel_cross": 12000, "inet_evals": 180000,
+                     "runs_without_hard_kill": 1}},
+    exhaustive_subspaces={
+        t: ["randomly_rewire on every labelled undirected graph with 2..5 "
+            "nodes (1098 graphs, one seed and iteration count each)",
+            "randomly_rewire_geomodel_I/II/III step by step on every "
+            "labelled undirected graph with 5 nodes (1024 x 3, one dyadic "
+            "distance-class matrix and seed each)",
+            "RandomlyRewireCrossLinks on every 3x3 cross adjacency block "
+            "(512) between two unsorted 3-node groups of a 7-node network"]
+        for t in ("quick", "thorough")},
     assumptions=[
         "distance matrices are symmetric with zero diagonal; dyadic / integer "
         "distance classes make |D_old-D_new| < eps exact in float32, float "
@@ -160,6 +177,7 @@ def case_model(ctx, k, cid):
     seed = seed_lib(r)
     det = {"seed": seed}
     extra = []        # (signature suffix) of model specific invariants broken
+    nontriv = False
     if kind == "ErdosRenyi:n_links":
         n = int(r.integers(2, 31))
         M = n * (n - 1) // 2
@@ -1078,19 +1096,19 @@ def run(ctx):
     # finest monitors, least able to hang); phase B: multi-iteration calls
     phases = [[
         # (tag, function, number of cases, soft guard seconds)
-        ("kx1", case_kernel_cross1, 8000 if T else 800, 10),
-        ("kgeo", case_kernel_geo, 10000 if T else 800, 10),
-        ("model", case_model, 30000 if T else 2400, 10),
-        ("xset", case_cross_set, 20000 if T else 1500, 10),
-        ("dist", case_dist, 6000 if T else 480, 10),
+        ("kx1", case_kernel_cross1, 24000 if T else 800, 10),
+        ("kgeo", case_kernel_geo, 30000 if T else 800, 10),
+        ("model", case_model, 90000 if T else 2400, 10),
+        ("xset", case_cross_set, 60000 if T else 1500, 10),
+        ("dist", case_dist, 18000 if T else 480, 10),
     ], [
         ("rewire-small", case_rewire_small, len(SMALL), 10),
         ("xrew-small", case_cross_rewire_small, 512, 10),
         ("geo-small", case_geo_small, 3 * GRAPHS5, 10),
-        ("rewire", case_rewire, 20000 if T else 1500, 10),
-        ("geo", case_geo, 20000 if T else 1500, 10),
-        ("xrew", case_cross_rewire, 15000 if T else 1200, 10),
-        ("kx", case_kernel_cross, 10000 if T else 800, 10),
+        ("rewire", case_rewire, 60000 if T else 1500, 10),
+        ("geo", case_geo, 60000 if T else 1500, 10),
+        ("xrew", case_cross_rewire, 45000 if T else 1200, 10),
+        ("kx", case_kernel_cross, 30000 if T else 800, 10),
     ]]
     # A compiled rejection loop that cannot terminate is not interruptible by
     # the soft watchdog.  Cases are therefore gated by ctx.start (progress
@@ -1112,11 +1130,12 @@ def run(ctx):
                 fh.write(fam + "\n")
     elif os.path.exists(mark):
         os.remove(mark)
-    for plan in phases:
-        run_plan(ctx, plan, poisoned)
+    # phase A may use at most 45 % of the soft budget
+    run_plan(ctx, phases[0], poisoned, 0.55 * ctx.time_left())
+    run_plan(ctx, phases[1], poisoned, 0.0)
 
 
-def run_plan(ctx, plan, poisoned):
+def run_plan(ctx, plan, poisoned, reserve):
     # interleave the families so that a time budget cuts all of them evenly
     chunk = 64
     pos = {p[0]: 0 for p in plan}
@@ -1130,7 +1149,7 @@ def run_plan(ctx, plan, poisoned):
             active = True
             hi = min(total, lo + chunk)
             pos[tag] = hi
-            if ctx.time_left() <= 0:
+            if ctx.time_left() <= reserve:
                 ctx.count("cases_cut_by_budget", hi - lo)
                 continue
             for k in range(lo, hi):
